@@ -12,7 +12,8 @@ METRICS = ["cityblock", "chebyshev", "euclidean", "sqeuclidean"]
 
 def gen_simulation(rs, n_rows=(24, 60), force_nn_pair=None, absent_arm=False, force_empty=False):
     n_arms = int(rs.integers(2, 5))
-    labels = gen.pick(rs, ["int", "str", "negint"])  # float labels: sklearn's confusion_matrix rejects them ("continuous")
+    # non-integral float labels: sklearn's confusion_matrix rejects them ("continuous"); integral ones are accepted
+    labels = gen.pick(rs, ["int", "str", "negint", "bigfloat"])
     arms = list(gen.LABELS[labels][:n_arms])
     n = int(rs.integers(n_rows[0], n_rows[1] + 1))
     nf = int(gen.pick(rs, [2, 3]))
@@ -66,6 +67,22 @@ def gen_simulation(rs, n_rows=(24, 60), force_nn_pair=None, absent_arm=False, fo
         d[pos] = victim
     r = gen.gen_rewards(rs, n, rk)
     X = gen.gen_contexts(rs, n, nf, hi=5) if contextual else None
+    if X is not None:
+        # a radius placed exactly on the distance between two rows of the data (scipy's own double value, irrational for
+        # euclidean): the boundary is included, in the simulator as in the library
+        from scipy.spatial.distance import cdist
+        for c in cfgs:
+            if c["np"]["kind"] == "radius" and rs.integers(2):
+                i_, j_ = int(rs.integers(n)), int(rs.integers(n))
+                r_ = float(cdist(np.asarray([X[i_]], dtype=float), np.asarray([X[j_]], dtype=float), metric=c["np"]["metric"])[0][0])
+                if r_ > 0:
+                    from mon.oracles import nhood
+                    key_ = int(nhood.dist_key(c["np"]["metric"], X[i_], X[j_]))
+                    if rs.integers(2):
+                        c["np"]["radius"], c["np"]["radius_key"] = r_, key_
+                    else:
+                        # a hair (2^-40 relative) below that distance: rows at exactly that distance are outside
+                        c["np"]["radius"], c["np"]["radius_key"] = r_ * (1.0 - 2.0 ** -40), key_ - 0.5
     test_size = float(gen.pick(rs, [0.1, 0.25, 0.3, 0.5, 0.7]))
     n_test = math.ceil(n * test_size)
     is_ordered = bool(rs.integers(2))
